@@ -129,12 +129,27 @@ func (schemaStream) Generate(rng *rand.Rand, tier string, emit func(Case)) {
 		s := genTypedSpec(rng)
 		emit(Case{"op": "typed", "spec": specToProto(s)})
 	}
+	// every kind of defect the library rejects, as a typed Spec: what the library admits must pass the schema
+	// whatever the reason it was admitted for
+	for _, kind := range mutationKinds {
+		for i := 0; i < perKind; i++ {
+			d := g.spec()
+			if g.mutate(d, kind) == "" {
+				continue
+			}
+			if raw, err := cdi.ParseSpec(renderJSON(d)); err == nil && raw != nil {
+				emit(Case{"op": "typed", "spec": specToProto(raw)})
+			}
+		}
+	}
 }
 
 func genTypedSpec(rng *rand.Rand) *specs.Spec {
 	g := docGen{rng}
 	d := g.spec()
-	if rng.Intn(6) == 0 {
+	if rng.Intn(2) == 0 {
+		// half of the typed Specs carry one defect the library must reject: if the library (wrongly)
+		// admits it, the schema's verdict on it is compared like for any other admitted Spec
 		g.mutate(d, mutationKinds[rng.Intn(len(mutationKinds))])
 	}
 	raw, err := cdi.ParseSpec(renderJSON(d))
@@ -229,12 +244,17 @@ func (schemaStream) Execute(c Case) {
 		if s == nil {
 			return
 		}
+		if len(s.Devices) == 0 {
+			s.Devices = nil // the protocol does not distinguish an empty from a nil list; the model takes nil
+		}
 		b := schema.BuiltinSchema()
 		obs["typed"] = verdictOf(func() error { return b.Validate(s) })
 		// files the library writes for it
 		dir := filepath.Join(schemaRoot, "w")
 		cache, _ := cdi.NewCache(cdi.WithSpecDirs(dir), cdi.WithAutoRefresh(false))
+		obs["libaccepts"] = false
 		if cache.WriteSpec(s, "out.json") == nil && cache.WriteSpec(s, "out.yaml") == nil {
+			obs["libaccepts"] = true
 			obs["fileJson"] = verdictOf(func() error { return b.ValidateFile(filepath.Join(dir, "out.json")) })
 			obs["fileYaml"] = verdictOf(func() error { return b.ValidateFile(filepath.Join(dir, "out.yaml")) })
 			cdi.SetSpecValidator(b)
